@@ -241,7 +241,7 @@ def seq_ne(a, b):
     return zor(ds)
 
 
-PATTERNS = {'group': b'k=(?P<value>[y"]+)', 'plain': b'[y"]+', 'edge': b'[ \ty]+'}
+PATTERNS = {'group': b'k=(?P<value>[y"]+)', 'plain': b'[y"]+', 'edge': b'[ \ty]+', 'optgroup': b'z(?P<value>[y"]+)?'}
 
 
 def build_content(I, name, bs):
@@ -259,6 +259,12 @@ def build_content(I, name, bs):
         core = [121] * max(bs['core'], 1)
         return lead + core + trail, tuple(lead + core + trail)
     core = [I.fresh_byte('%s_c%d' % (name, i), tuple(b'y"')) for i in range(bs['core'])]
+    if pat == 'optgroup':
+        # the pattern has a `value` group that takes part only when letters follow the z; otherwise the whole
+        # match (`z`) is what is selected
+        pre = [I.fresh_byte('%s_p%d' % (name, i), tuple(b'x y')) for i in range(bs.get('pre', 1))]
+        body = pre + [122] + core + [59]
+        return lead + body + trail, (tuple(core) if core else (122,))
     if pat == 'group':
         # text · k= · VALUE · ; — the text before may hold value letters (the match decides, not a search)
         pre = [I.fresh_byte('%s_p%d' % (name, i), tuple(b'x y')) for i in range(bs.get('pre', 1))]
@@ -619,6 +625,8 @@ def tasks_for(tier):
         for core in (0, 1, 2):
             T.append(dict(files=[[B(pattern=pat, core=core, lead=1, trail=1, outcome='string')]]))
         T.append(dict(files=[[B(pattern=pat, core=2, pre=2, outcome='nil')]]))
+    for core in (0, 1, 2):
+        T.append(dict(files=[[B(pattern='optgroup', core=core, lead=1, trail=1, outcome='string')]]))
     for lead, trail in ((1, 0), (0, 1), (2, 1)):
         T.append(dict(files=[[B(pattern='edge', core=1, lead=lead, trail=trail, outcome='string')]]))
     T.append(dict(files=[[B(core=3, lead=2, trail=2, outcome='string', msg_len=3)]]))
